@@ -14,7 +14,7 @@ use crate::wr::{calls_from_tree, run_calls};
 pub static DEF: PropDef = PropDef {
     id: "C07",
     level: "exploration",
-    rule: "each case: a random conformant tree (zoo incl. Z_DEEP chains of 3-7 nested masters, and random specifications) and a family of unknown-size choices U over its masters: ALL 2^m subsets when the tree has m <= 8 eligible masters (thorough; <= 5 quick), random subsets + 'all eligible' + 'deepest chain' otherwise. Each (tree, U) is encoded twice — by the real writer (option or deprecated API) and by the reference encoder with all-ones sizes of a random width 1-8 per master — and read by the real strict iterator; the item sequence (offsets ignored) must equal the flattened tree, i.e. equal the all-known-size reading, with Ends of implicitly closed masters placed before the element that follows. A master is eligible unless it is a global master (may contain itself) or the element that follows it after closing would be a global/raw element (inherently ambiguous, excluded by the statement). distinct = (tree fingerprint, U); non-trivial iff |U| >= 2 with two members nested, or the closing element lies >= 2 levels above the innermost unknown-size master.",
+    rule: "each case: a random conformant tree (zoo incl. Z_DEEP chains of 3-7 nested masters, and random specifications) and a family of unknown-size choices U over its masters: ALL 2^m subsets when the tree has m <= 8 eligible masters (thorough; <= 5 quick), random subsets + 'all eligible' + 'deepest chain' otherwise. Each (tree, U) is encoded twice — by the real writer (option or deprecated API) and by the reference encoder with all-ones sizes of a random width 1-8 per master — and read by the real strict iterator (half of the readings through a scripted source with short reads and a small initial capacity); the item sequence (offsets ignored) must equal the flattened tree, i.e. equal the all-known-size reading, with Ends of implicitly closed masters placed before the element that follows. A master is eligible unless it is a global master (may contain itself) or the element that follows it after closing would be a global/raw element (inherently ambiguous, excluded by the statement). distinct = (tree fingerprint, U); non-trivial iff |U| >= 2 with two members nested, or the closing element lies >= 2 levels above the innermost unknown-size master.",
     assumptions: &["reference closing semantics (spec.rs::ref_closes) only enter through the eligibility rule; the oracle itself is the generated tree", "cases the writer rejects are vacuous (counted)"],
     cases_quick: 80_000,
     cases_thorough: 600_000,
@@ -176,7 +176,16 @@ fn run(c: &mut Case) {
                 let rn = to_rnodes_unknown_widths(&mut c.rng, &t);
                 enc_tree(&rn).0
             };
-            let p = parse_slice(&bytes, &cfg);
+            // half of the readings go through a scripted source with short reads / small capacity
+            let p = if c.rng.chance(1, 2) {
+                parse_slice(&bytes, &cfg)
+            } else {
+                let src = super::c05::random_source(&mut c.rng, &bytes);
+                let mut cfg2 = cfg.clone();
+                cfg2.capacity = *c.rng.pick(&[None, Some(0usize), Some(16), Some(64)]);
+                c.count("readings_with_short_reads");
+                crate::rd::parse_scripted(src, &cfg2).0
+            };
             c.eval();
             c.count("encodings_compared");
             let got = p.values();
